@@ -755,9 +755,19 @@ def run_container(shard, tier, st):
                 single_cache[feat] = any(read_streams(d1, [n1], b)[0] != ("ok", payload) for b in CONTAINER_BUFSIZ)
         return single_cache[feat]
 
+    default_ok: List[Optional[bool]] = [None]
+
+    def default_fails() -> bool:
+        if default_ok[0] is None:
+            one = DocB()
+            n1 = add_stream(one, chain, stages, data, DEFAULT_CONTAINER)
+            d1 = one.write()
+            default_ok[0] = all(read_streams(d1, [n1], b)[0] == ("ok", payload) for b in CONTAINER_BUFSIZ)
+        return not default_ok[0]
+
     def cause_for(feats: List[str]):
         def f():
-            if not feats:
+            if not feats or default_fails():
                 return "container:default"
             singles = [x for x in feats if single_fails(x)]
             if singles:
